@@ -175,6 +175,19 @@ def run(tier, seed, replay=None):
     fill_table(ck, tu, X)
     chunking_rule(ck, tu, X)
     step_common.add_step_obligations(ck, tu, X, want=("C07",), units=("step",))
+    # the single index row of a continuous file (index_len = 1 in that mode): one-block instance of the index function's rows clause
+    from contracts import c_index
+    import z3 as _z3
+    it1 = cfront.CInterp(tu, externals=X)
+    c_index.verify_index_success(it1, 1)
+    extra = []
+    for o in it1.obls:
+        if o.label in (c_index.INDEX_FN + ".rows", c_index.INDEX_FN + ".row_count", c_index.INDEX_FN + ".accepts_wellformed"):
+            extra.append(Obl(o.label + ".continuous_single_row", o.func, o.line, list(o.hyps) + [_z3.Int("w.is_continuous") != 0, _z3.Int("w.needs_chunking") == 0],
+                             o.goal, kind=o.kind, meta={"L": 1}, qhyps=list(getattr(o, "qhyps", []))))
+    ck.add(extra)
+    ck.add_function(tu.func_info(c_index.INDEX_FN))
+    ck.replayers[c_index.INDEX_FN] = replay_writer.replay
     for pref in ("step.",):
         ck.replayers.setdefault(pref, replay_writer.replay)
     ck.discharge()
